@@ -6,7 +6,7 @@ import itertools
 import random
 import re
 
-from harness import core, gristenv as G, schedtrace as ST
+from harness import core, gristenv as G, schedtrace as ST, sk2v
 from harness.props import c06 as K2
 
 ID = 'C18'
@@ -924,7 +924,16 @@ MATCHERS = {'lookup_key_depends_on_own_column': _lookup_matcher,
 
 # ---- tie ------------------------------------------------------------------------------------------------
 
+def regenerate(ctx):
+  sk2v.regenerate(ctx)
+
+
 def correspond(ctx):
+  sk2v.differential(ctx)
+  return correspond_tie(ctx)
+
+
+def correspond_tie(ctx):
   """Recorded update loops of cyclic documents without try/except, replayed by the model (as C06)."""
   cases = K2.traced_cases(ctx, ctx.n(35, 600), p_try=0.0, p_tryo=0.15, p_lookup=0.3, p_multi=0.35)
   for term, info, st, _strict, _edges in cases:
